@@ -9,8 +9,8 @@
    Domain: every component has at least one sample (zero-sample components are not valid
    VC-2 formats); it is a hypothesis only where needed (`comps_nonempty`). *)
 From Coq Require Import ZArith List Bool Lia.
-From VC2 Require Import Base.PyZ Gen.VC2Math Model.FileFormat Model.Compare
-  Proofs.FileFormatProofs Proofs.CompareProofs.
+From VC2 Require Import Base.PyZ Gen.StateRec Gen.VC2Math Gen.VideoParams Gen.BytesPerSample
+  Model.FileFormat Model.Compare Proofs.FileFormatProofs Proofs.CompareProofs Proofs.DimsBridge.
 Import ListNotations.
 Open Scope Z_scope.
 
@@ -135,6 +135,35 @@ Theorem C23_directory_mode : forall rcs fin same diff, main_dirs rcs = (fin, sam
   (fin = 0 <-> diff = 0).
 Proof. exact main_dirs_zero_iff. Qed.
 
+(* ---- tie T: the same statements over the functions TRANSLATED from the source on this run ------------------ *)
+(* the model's component dimensions/depths/bytes-per-sample are exactly what compute_dimensions_and_depths
+   computes through the translated pseudocode set_coding_parameters (Gen/VideoParams.v, from
+   pseudocode/video_parameters.py) and its own bytes_per_sample statements (Gen/BytesPerSample.v), for every
+   format and coding mode, and the translated code does not raise *)
+Theorem C23_dimensions_match_source : forall f pcm,
+  compute_dimensions_and_depths f pcm = source_dims f pcm /\
+  set_coding_parameters_dom (state_of_pcm pcm) (vp_of_format f) = true.
+Proof. exact dimensions_match_source. Qed.
+
+Theorem C23_bytes_per_sample_matches_source : forall depth : Z,
+  bytes_per_sample depth = bytes_per_sample_of_depth depth /\ bytes_per_sample_of_depth_dom depth = true.
+Proof. exact bytes_per_sample_matches_source. Qed.
+
+(* corollaries of C23_sample_roundtrip / C23_pack_length / C23_file_roundtrip over the translated definitions *)
+Theorem C23_sample_roundtrip_source : forall depth v : Z, 1 <= depth -> 0 <= v < 2 ^ depth ->
+  unpack depth (le_bytes (Z.to_nat (bytes_per_sample_of_depth depth)) v) = v.
+Proof. exact sample_roundtrip_source. Qed.
+
+Theorem C23_pack_length_source : forall depth v : Z,
+  length (pack depth v) = Z.to_nat (bytes_per_sample_of_depth depth).
+Proof. exact pack_length_source. Qed.
+
+Theorem C23_file_roundtrip_source : forall f pcm pic rest,
+  1 <= luma_excursion f -> 1 <= color_diff_excursion f ->
+  picture_ok (source_dims f pcm) pic = true ->
+  read_picture (source_dims f pcm) (write_picture (source_dims f pcm) pic ++ rest) = Some (pic, rest).
+Proof. exact file_roundtrip_source. Qed.
+
 (* ---- non-vacuity ---------------------------------------------------------------------------------------- *)
 Example C23_example_pack :
   pack 10 1023 = [255; 3] /\ pack 17 65537 = [1; 0; 1; 0] /\ unpack 10 [255; 255] = 1023 /\
@@ -150,5 +179,7 @@ Example C23_example_compare :
                                  (Some (write_picture ds [[1; 2; 3; 4]; [5; 6]; [7; 8]])) = Compared 0 [0; 0; 0] /\
   compare_pictures (Some m) (Some m) (Some (write_picture ds [[1; 2; 3; 4]; [5; 6]; [7; 8]]))
                                  (Some (write_picture ds [[1; 0; 3; 0]; [5; 6]; [7; 9]])) = Compared 4 [2; 0; 1] /\
-  main_dirs [0; 4; 0; 3; 0] = (3, 3, 2).
+  main_dirs [0; 4; 0; 3; 0] = (3, 3, 2) /\
+  map (fun d => [d_width d; d_height d; d_depth d; d_bps d]) (source_dims (mkFormat 8 4 2 1023 131071 []) 1)
+    = [[8; 2; 10; 2]; [4; 1; 17; 4]; [4; 1; 17; 4]].
 Proof. vm_compute. repeat split; reflexivity. Qed.
